@@ -36,7 +36,7 @@ def _intarr(rng, n, shape=None, neg=True):
 def gen_index(rng, shape):
     """Returns (index, class_name)."""
     r = len(shape)
-    kinds = ["int", "slice", "ellipsis", "newaxis", "intarr", "intarr_rep", "boolmask", "list", "mixed_adv_slice", "two_adv", "adv_bcast", "tuple_ints", "bool_lead", "empty_list", "neg_step", "scalar_arr", "adv_newaxis", "bool_and_slice", "ellipsis_mid", "bool_list", "bool_list_in_tuple", "npbool_list", "nested_bool_list", "one_true_list", "npint", "npint_tuple", "intlist_neg", "intarr_neg_only", "tuple_seq_rep", "tuple_seq_rep", "list_in_tuple_rep"]
+    kinds = ["int", "slice", "ellipsis", "newaxis", "intarr", "intarr_rep", "boolmask", "list", "mixed_adv_slice", "two_adv", "adv_bcast", "tuple_ints", "bool_lead", "empty_list", "neg_step", "scalar_arr", "adv_newaxis", "bool_and_slice", "ellipsis_mid", "bool_list", "bool_list_in_tuple", "npbool_list", "nested_bool_list", "one_true_list", "npint", "npint_tuple", "intlist_neg", "intarr_neg_only", "tuple_seq_rep", "tuple_seq_rep", "list_in_tuple_rep", "range_index", "range_index"]
     if r == 0:
         k = rng.choice(["ellipsis", "newaxis", "empty_tuple", "bool_scalar"])
         if k == "ellipsis":
@@ -88,6 +88,14 @@ def gen_index(rng, shape):
         return [int(t) for t in rng.integers(-n0, 0, size=3)] + [int(rng.integers(0, n0))], k
     if k == "intarr_neg_only":
         return rng.integers(-n0, 0, size=(int(rng.integers(1, 5)),)), k
+    if k == "range_index":
+        # a range object as index (NumPy reads it as an integer array): descending down to position 0 (stop -1
+        # means "before 0" for a range but "the last element" for a slice), negative starts, steps
+        v = int(rng.integers(0, 6))
+        rg = [range(n0 - 1, -1, -1), range(-min(3, n0), 0), range(0, n0, 2), range(n0 - 1, -1, -2), range(n0), range(1, 1)][v]
+        if r >= 2 and rng.uniform() < 0.4:
+            return (_slice(rng, n0), range(shape[1] - 1, -1, -1)), k
+        return rg, k
     if k in ("tuple_seq_rep", "list_in_tuple_rep"):
         # an integer-array index SPELLED as a tuple (or list) nested inside the index tuple, with repeated
         # positions; NumPy reads a sequence inside the index tuple as an array index whatever its type
